@@ -23,3 +23,27 @@ CHECKS["C06"] = dict(
     text="Each fit is repeated and compared bit for bit (seed reproducibility); the forest prediction and the out-of-bag prediction are recomputed from the deserialised member trees and the stored in-bag masks (plurality / mean, ties in the library's favour); stratification, label values, target range and tree count are checked. For n=4 all bootstrap samples of 1-2 trees are enumerated, so the in-bag masks themselves are validated against the draws.",
     note="Seeds outside the enumerated block are not explored; member trees are trusted to survive serde (C19). OOB rows with no out-of-bag tree are skipped.",
 )
+CHECKS["C18"] = dict(
+    engine="E1+E2",
+    technique="exhaustive enumeration of one-hot layouts (every subset of categorical columns for p<=6 (8,9,10 thorough), 1..3 categories per column, index list in every order, 4 matrix backends, every first-appearance pattern, every unseen / fractional cell for the error clauses) against a reference encoder; explicit-state BFS over every category stream of length <=6 (7) on the real CategoryMapper",
+    text="The property itself says 'exhaustively all subsets ... for p <= 6'; the check enumerates exactly that space (and more) with an exact reference encoder (no tolerances), plus a breadth-first search of the CategoryMapper state machine checking that its four maps stay mutually inverse in every reachable state.",
+    note="p>10, more than 6 categories per column and category streams longer than 7 are not reached; fit accepts values within 0.001 of an integer (counted, not flagged).",
+)
+CHECKS["C13"] = dict(
+    engine="E1",
+    technique="exhaustive enumeration of ordered point sequences on small 1-D/2-D/3-D/4-D lattices x eps x min_samples x metric x float width, both neighbour-search backends, each labelling judged clause by clause against a definition-level oracle (eps-graph, core points, union-find) and predict against a brute-force vote",
+    text="Order matters for DBSCAN (scan order numbers the clusters, border points go to the first core that reaches them), so sequences rather than sets are enumerated; lattice data make distances exactly equal to eps the norm. The oracle accepts any labelling the definition allows (border points: any adjacent core's cluster). Structured chains/blobs/Kronecker sets reach 50 (150) points.",
+    note="No tolerances (exact lattice arithmetic). Larger random clouds are not reached.",
+)
+CHECKS["C15"] = dict(
+    engine="E1",
+    technique="exhaustive enumeration of label/score vector pairs (all binary pairs n<=6, all score vectors over a 4-letter alphabet n<=7 and 3-letter n=8..10 for AUC, all real-target pairs n<=4 at three scales, all labelling pairs over {0,1,2}^n n<=6 plus product/identical layouts up to 8 classes) judged by exact rational reference definitions",
+    text="Every metric is compared with its textbook definition computed in exact rational arithmetic (AUC by pair counting with ties one half; entropies from the contingency table), including range, swap and renaming invariance for the cluster scores and the length-mismatch rejection. n=8..10 reaches the partition code of the quick-sort used for mid-ranks.",
+    note="f64 vectors of the built-in Vec type only (backend vectors are C20's subject); entropy-based scores compared at 1e-12.",
+)
+CHECKS["C17"] = dict(
+    engine="E1",
+    technique="exhaustive enumeration of ordered vector pairs and, for the triangle inequality, every ordered triple of finite vector catalogues (lattice alphabets^len at three scales, structured vectors of every length 1..30, f64 and f32) x 13 metrics; Mahalanobis over every small integer SPD covariance and every full-rank lattice data set; double-double closed-form oracle",
+    text="Metric axioms are universally quantified over pairs and triples, so the check enumerates all of them over finite catalogues and measures each result in ulps of a ~106-bit reference; coincidences (Minkowski 1/2 vs Manhattan/Euclid, identity Mahalanobis vs Euclid) and the rejection of mismatched lengths are decided on the same cases.",
+    note="Tolerances (8+n) eps relative, (8+2n^2) cond eps for Mahalanobis, with >=4x measured headroom; vectors longer than 30 and covariance orders >12 not reached.",
+)
